@@ -35,6 +35,12 @@ pub fn check(tier: Tier) -> Check {
     }
     // a Maximum Packet Size in force: some requests (among them a long DISCONNECT) are refused
     parts.push(Part::new("C13/causes", json!({"depth": tier.pick(4, 5), "m": 14}), tier.pick(0, 1), tier.pick(40, 600)));
+    // the second connection of a Context whose first one ended inside a packet (3), with a failed
+    // acknowledgement write (4), by the user's DISCONNECT (5), by a DISCONNECT whose write failed (6), by
+    // the server's DISCONNECT (7): run() serves it until a cause of its own occurs
+    for fl in [3u64, 4, 5, 6, 7] {
+        parts.push(Part::new("C13/causes", json!({"depth": tier.pick(3, 4), "flavour": fl}), 0, tier.pick(40, 600)));
+    }
     // the transport's errors carry other io::ErrorKinds (WouldBlock, Interrupted, UnexpectedEof), and a
     // read error may be transient: SocketClosed all the same
     for k in [1u64, 2, 3] {
